@@ -20,6 +20,9 @@ import hashlib
 
 VERIF = os.path.dirname(os.path.dirname(os.path.abspath(__file__)))
 PY = os.path.join(VERIF, ".venv", "bin", "python")
+# evidence and replay files go to /verif unless a scratch tree is being exercised (tools/seedcheck.py sets both
+# PVL_REPO and SYMX_OUT, so that trying the checks on a seeded change never touches /repo or the committed evidence)
+OUT = os.environ.get("SYMX_OUT", VERIF)
 
 EXIT_OK, EXIT_VIOLATION, EXIT_HARNESS = 0, 1, 3
 MAX_REPLAYS_PER_OBLIGATION = 2
@@ -243,7 +246,7 @@ def _run_task(spec, shard, opts):
 
 # ---------------------------------------------------------------------------
 def replay_file(prop, H, inputs_enc, tag):
-    d = os.path.join(VERIF, "replays", prop)
+    d = os.path.join(OUT, "replays", prop)
     os.makedirs(d, exist_ok=True)
     body = dict(property=prop, harness=list(H.spec()[:2]) + [H.spec()[2]], inputs=inputs_enc, expected_tag=tag)
     txt = json.dumps(body, sort_keys=True, indent=1)
@@ -434,8 +437,8 @@ def run_property(prop, harnesses, tier, seed, jobs=16, level="model_checking", e
     )
     if extra_evidence:
         ev["coverage"].update(extra_evidence)
-    os.makedirs(os.path.join(VERIF, "evidence"), exist_ok=True)
-    with open(os.path.join(VERIF, "evidence", prop + ".json"), "w") as f:
+    os.makedirs(os.path.join(OUT, "evidence"), exist_ok=True)
+    with open(os.path.join(OUT, "evidence", prop + ".json"), "w") as f:
         json.dump(ev, f, indent=1, sort_keys=True)
     for ln in lines:
         print(ln)
